@@ -1,4 +1,5 @@
 import Iauthd.Conf.ProofsHooks
+import Iauthd.Conf.ProofsRegister
 import Iauthd.Conf.Counterexamples
 import Iauthd.Conf.Judge
 /-
@@ -23,9 +24,20 @@ import Iauthd.Conf.Judge
       node's hook runs iff one is installed and its effective value changed;
       `walk_unmodified_keys`: an object whose hook is not due kept its membership.
 
+    * histories: `history_no_fault`: no sequence of loads (valid or not) and registrations
+      (at any point) commits a memory error; `C15_canonical`: whatever that history was, a
+      successful load leaves the tree `Settled` for its file — independence of earlier
+      files and of everything registered before the load;
+    * registration after a load: `register_lookup` + `regStr_value`, `regList_value`,
+      `regInaddr_value` (repaired F15, F16): the setting is found under its key, is
+      `specified`, carries the registered default, and its value is the file's value when
+      the file gave one (`present`) and the registered default otherwise.
+
   Not proved here (exact carve-outs):
-    * registration *after* the last load preserving `Settled` (needs the order laws of
-      `conf_object_cmp` along the alignment); the judge checks it on every run;
+    * that a registration after the last load preserves `Settled` for the *whole* sibling
+      list (the lookup theorem above is per setting; the alignment of the list needs the
+      order laws of `conf_object_cmp`); re-registration of one path with a different
+      default; the judge checks both on every run;
     * for objects, "hook ⇒ membership changed" (needs sortedness of both child lists).
 -/
 namespace Iauthd.Properties
